@@ -226,6 +226,8 @@ int main(int argc, char **argv)
 		vh_rng_seed(&rng, a.seed, 7000000 + (uint64_t)idx);
 		/* ECDSA combos get extra weight: short r/s values are the rare event we are after */
 		cb = CB[(idx / 4) % ncb];
+		/* keys above 4096 bits cost a second per signature: an eighth of their share */
+		{ long q = idx / 4; while (K[CB[q % ncb].k].bits > 4096 && K[CB[q % ncb].k].kind != VH_K_OCT && ((idx >> 6) & 7)) q++; cb = CB[q % ncb]; }
 		if (vh_below(&rng, 3) == 0) { int tries = 0; do { cb = CB[vh_below(&rng, (uint64_t)ncb)]; } while (vh_alg_family(cb.alg) != VH_FAM_ES && ++tries < 50); }
 		sprov = (int)(idx & 1); vprov = (int)((idx >> 1) & 1);
 		route = (int)vh_below(&rng, 3);	/* 0 whole-object merge, 1 per-member typed setters, 2 mixed: merge then per-member extras */
